@@ -606,7 +606,15 @@ impl Runner {
             (None, _) => Some(self.rng.range128(0, input)),
             _ => None,
         };
-        let to = self.pick_to(&who);
+        let mut to = self.pick_to(&who);
+        if self.rng.chance(4, 100) {
+            // the recipient is a contract of the system: the router itself or a pair on the route
+            to = Some(match self.rng.weighted(&[50, 35, 15]) {
+                0 => AddrRef::Router,
+                1 => AddrRef::Pair(self.rng.pick_idx(self.sim.model.pairs.len().max(1))),
+                _ => AddrRef::Factory,
+            });
+        }
         let op = match &first_offer {
             AssetRef::Native(d) => {
                 let mut funds = vec![Fund { denom: d.clone(), amount: u(input) }];
